@@ -65,6 +65,8 @@ MODESET = ("modes", "mode_setters", {})
 MODEHELP = ("modes", "mode_helpers", {})
 FINISH = ("modes", "finish_resets_priority_mode", {})
 SKIPPASS = ("iters", "skip_passthrough", {})
+SKIPMEM = ("iters", "skip_membership", {})
+PARM = ("fields", "parse_arm_faithful", {})
 FLF = ("special", "func_level_first", {})
 MODRESET = ("special", "modifier_reset", {})
 KMIX = ("mutators", "kind_mix", {})
@@ -91,14 +93,14 @@ def EM(kinds, names=False):
 
 
 PROPS = {
-    "C01": P([ARGN, IDSPACE, FRESH, ("fields", "struct_copy_pairing", {}), RECD, FULLIT, TT_WE, TT_AUX, CONSTEXPR, ("emit", "section_order", {}), ("nopanic", "payload_exh_rule", {}), SCRATCH] + REIDX,
+    "C01": P([ARGN, PARM, IDSPACE, FRESH, ("fields", "struct_copy_pairing", {}), RECD, FULLIT, TT_WE, TT_AUX, CONSTEXPR, ("emit", "section_order", {}), ("nopanic", "payload_exh_rule", {}), SCRATCH] + REIDX,
              "necessary-condition lint: every value type of the stated profile survives the reader→writer tables; constant-expression operators are re-emitted as themselves; sections are emitted in binary-format order; every payload kind has a handler",
-             "R-TYPE-TABLE (wasm_encoder writer), aux tables, R-CONSTEXPR-TABLE, R-SECTION-ORDER, R-PAYLOAD-EXH, R-LOOP-SCRATCH, R-REFERS-EXH (the updaters run on every encode, with identity maps on an unmodified module: each must write a looked-up index back to the operand it was looked up for).",
+             "R-TYPE-TABLE (wasm_encoder writer), aux tables, R-CONSTEXPR-TABLE, R-SECTION-ORDER, R-PAYLOAD-EXH, R-PARSE-ARM, R-LOOP-SCRATCH, R-REFERS-EXH (the updaters run on every encode, with identity maps on an unmodified module: each must write a looked-up index back to the operand it was looked up for).",
              "that the whole output validates for every module.",
              "abstract interpretation of match tables over a finite type domain; call-order check"),
-    "C02": P([ARGN, FRESH, EMITALL, RECD, FULLIT, TT_WE, TT_AUX, CONSTEXPR, ("fields", "types_cover", {}), ("fields", "name_pairing", {}), ("fields", "struct_copy_pairing", {}), ("fields", "custom_sections", {}), IMPORD, SCRATCH, TFLOW] + REIDX,
+    "C02": P([ARGN, PARM, FRESH, EMITALL, RECD, FULLIT, TT_WE, TT_AUX, CONSTEXPR, ("fields", "types_cover", {}), ("fields", "name_pairing", {}), ("fields", "struct_copy_pairing", {}), ("fields", "custom_sections", {}), IMPORD, SCRATCH, TFLOW] + REIDX,
              "necessary conditions of content preservation: no type/const table changes a value, no Types field is dropped by the encoder, every name subsection and custom section is re-emitted from where it was stored, struct→struct copies pair like-named fields",
-             "R-TYPE-TABLE, R-CONSTEXPR-TABLE, R-FIELDS-COVER(Types), R-NAME-PAIRING, R-COPY-PAIRING, R-CUSTOM-SECTIONS, R-IMPORT-ORDINAL, R-LOOP-SCRATCH, R-REFERS-EXH, R-TYPE-FIELD-FLOW.",
+             "R-TYPE-TABLE, R-CONSTEXPR-TABLE, R-FIELDS-COVER(Types), R-NAME-PAIRING, R-COPY-PAIRING, R-CUSTOM-SECTIONS, R-IMPORT-ORDINAL, R-LOOP-SCRATCH, R-REFERS-EXH, R-TYPE-FIELD-FLOW, R-PARSE-ARM.",
              "equality of decoded forms on every input.",
              "table extraction + field-provenance pairing"),
     "C03": P([("nopanic", "nopanic", {}), ("nopanic", "untrusted_alloc", {}), ("nopanic", "parse_recursion", {})],
@@ -172,7 +174,7 @@ PROPS = {
              "R-BLOCK-TABLES(4), R-RESOLVER-DETAILS, R-RESOLVE-CLEARS, R-ENTRY-PRESERVE.",
              "firing counts at run time.",
              "ADT-driven table checks + path enumeration"),
-    "C18": P([INJAT, EMITORD, ENCW, FINISH, SIB, MODEHELP, LCG, WALK, SPFLAG, CLEARCOH, MODEF, BLOCKT, DETAILS, CLEARS],
+    "C18": P([INJAT, LOCADDR, EMITORD, ENCW, FINISH, SIB, MODEHELP, LCG, WALK, SPFLAG, CLEARCOH, MODEF, BLOCKT, DETAILS, CLEARS],
              "necessary: accepting predicate, resolver and driver agree on {Block,Loop,If,Else}; body placed After the opener; list cleared",
              "R-BLOCK-TABLES(2), R-RESOLVER-DETAILS, R-RESOLVE-CLEARS.",
              "firing semantics.",
@@ -182,7 +184,7 @@ PROPS = {
              "R-BLOCK-TABLES(1,2), R-RESOLVER-DETAILS, R-SCOPED-PENDING, R-RESOLVE-CLEARS.",
              "firing semantics.",
              "table agreement + container scoping analysis"),
-    "C20": P([ENCW, INJAT, ("mutators", "locals_owner", {}), EMITORD, FINISH, MODEHELP, ("misc", "if_chain", {}), LCG, SAVESIB, SCOPED, WALK, SPFLAG, CLEARCOH, MODEF, BLOCKT, DETAILS, ("misc", "flag_reset", {}), ("misc", "dead_after_sink", {}), CLEARS],
+    "C20": P([ENCW, INJAT, LOCADDR, ("mutators", "locals_owner", {}), EMITORD, FINISH, MODEHELP, ("misc", "if_chain", {}), LCG, SAVESIB, SCOPED, WALK, SPFLAG, CLEARCOH, MODEF, BLOCKT, DETAILS, ("misc", "flag_reset", {}), ("misc", "dead_after_sink", {}), CLEARS],
              "necessary: branch tables agree, target id arithmetic, flag protocol (set/reset), flag reset inside guard, no After code on the final end",
              "R-BLOCK-TABLES(1,3), R-RESOLVER-DETAILS, R-FLAG-RESET, R-DEAD-AFTER-SINK, R-RESOLVE-CLEARS.",
              "exactly-once at run time.",
@@ -212,9 +214,9 @@ PROPS = {
              "R-SKIP-LOOP, R-COUPLED-STATE, R-ITER-INDEX.",
              "exactly-once visiting over all skip lists.",
              "loop-exit condition analysis + path enumeration + MIR index sites"),
-    "C26": P([("iters", "skip_loop", {}), LOCADDR, IDSPACE, COUPCNT, SKIPPASS, ("iters", "comp_next_fallthrough", {}), ("component", "section_pairing", {}), ITCFG, FULLIT, SIB, ("iters", "coupled_state", {}), ("mutators", "who_may_call", {})],
+    "C26": P([("iters", "skip_loop", {}), SKIPMEM, LOCADDR, IDSPACE, COUPCNT, SKIPPASS, ("iters", "comp_next_fallthrough", {}), ("component", "section_pairing", {}), ITCFG, FULLIT, SIB, ("iters", "coupled_state", {}), ("mutators", "who_may_call", {})],
              "ModuleIterator and ComponentIterator perform the same operation on the same LocalFunction API for every trait method; module cursor changes rebuild the module sub-iterator from metadata and skip list",
-             "R-SIBLING(instrumenter), R-COUPLED-STATE, R-WHOMAYCALL.",
+             "R-SIBLING(instrumenter), R-COUPLED-STATE, R-WHOMAYCALL, R-SKIP-LOOP, R-SKIP-MEMBERSHIP, R-LOC-ADDRESS.",
              "visit-sequence equality over all components and skip maps.",
              "sibling effect summaries"),
     "C27": P([FFC, ARGN, CONVSIB, COUPCNT, ("component", "name_section_guard", {}), NEST, RECD, FULLIT, ("component", "variant_method_tables", {}), ("component", "section_pairing", {}), SCRATCH],
